@@ -194,7 +194,7 @@ func (i *Interpreter) eval(expr ast.Expr, env *environment.Environment, isRepl b
 			return nil, &ControlFlowSignal{Type: ControlFlowNone, LineNumber: 0}
 		}
 
-		if index < 0 || int(index) >= len(array) {
+		if index < 0 || index >= int64(len(array)) {
 			utils.RuntimeError(token.Token{Line: e.Line}, "Array index out of bounds.")
 			return nil, &ControlFlowSignal{Type: ControlFlowNone, LineNumber: 0}
 		}
@@ -230,7 +230,7 @@ func (i *Interpreter) eval(expr ast.Expr, env *environment.Environment, isRepl b
 			return nil, &ControlFlowSignal{Type: ControlFlowNone, LineNumber: 0}
 		}
 
-		if index < 0 || int(index) >= len(array) {
+		if index < 0 || index >= int64(len(array)) {
 			utils.RuntimeError(token.Token{Line: e.Line}, "Array index out of bounds.")
 			return nil, &ControlFlowSignal{Type: ControlFlowNone, LineNumber: 0}
 		}
